@@ -275,8 +275,8 @@ func init() {
 			}
 			return 1200
 		},
-		ChunkSize: 40,
-		Rule:      "each case runs 1-12 goroutines issuing Publish/PublishRetained (header+payload vectored), Subscribe/Unsubscribe/Ping (single buffer) and persisted publishes while the reference broker sends QoS 1/2 messages (so the read routine writes acknowledgements) and connections get replaced (resend); the scripted connection splits writes: accepted byte counts 0, 1, len-1 and PRNG values followed by a deadline expiry (the call continues when a byte was accepted) or a hard error, several splits per packet, spanning the header/payload boundary. Oracle per connection: the byte log decodes (independent codec) into complete packets, each equal byte for byte to the reference encoding of an issued request, a stored record or an owed acknowledgement, optionally followed by ONE incomplete packet that is a true prefix of an issued packet and ends the log; a request that returned nil has its packet in full on some connection. Non-trivial: at least one write split by the script; distinct by goroutines, split kinds fired and connections.",
+		ChunkSize:   40,
+		Rule:        "each case runs 1-12 goroutines issuing Publish/PublishRetained (header+payload vectored), Subscribe/Unsubscribe/Ping (single buffer) and persisted publishes while the reference broker sends QoS 1/2 messages (so the read routine writes acknowledgements) and connections get replaced (resend); the scripted connection splits writes: accepted byte counts 0, 1, len-1 and PRNG values followed by a deadline expiry (the call continues when a byte was accepted) or a hard error, several splits per packet, spanning the header/payload boundary. Oracle per connection: the byte log decodes (independent codec) into complete packets, each equal byte for byte to the reference encoding of an issued request, a stored record or an owed acknowledgement, optionally followed by ONE incomplete packet that is a true prefix of an issued packet and ends the log; a request that returned nil has its packet in full on some connection. Non-trivial: at least one write split by the script; distinct by goroutines, split kinds fired and connections.",
 		Assumptions: []string{"a failed Write reports fewer bytes than given; an expiry is only scripted under an armed write deadline", "the AF_UNIX socket variant (genuine writev short writes) is part of the thorough tier only"},
 		Run: func(c *run.Ctx) {
 			ep := newEpisode(c)
